@@ -208,3 +208,30 @@ async def empty_targets():
     async for () in x: pass
     async with a as []: pass
     [1 async for () in x]
+
+# every kind of atom / expression in with-item position (the grammar has a separate family of productions for it)
+with () as a: pass
+with (): pass
+with [] as a, {} as b, {1} as c, {1: 2} as d: pass
+with [x for x in y] as a, {x for x in y} as b, {k: v for k, v in y} as c, (x for x in y) as d: pass
+with [x for x in y], {x for x in y}, {k: v for k, v in y}, (x for x in y): pass
+with (a, b) as c: pass
+with (a, b,) as c: pass
+with (a), (b): pass
+with (a) as b, (c) as d: pass
+with ((a, b)) as c, ([d]) as e: pass
+with 1 as a, 'x' as b, f'{x}' as c, ... as d, None as e, True as f, 1.5 as g, 2j as h, b'y' as i: pass
+with (a := b) as c: pass
+with a.b as c, a[0] as d, a() as e, -a as f, not a as g, a + b as h, a < b as i, a and b as j, (a if b else c) as k: pass
+with a if b else c as d: pass
+with a ** b as c, a | b as d, a @ b as e, ~a as f, a or b as g, a[b:c] as h, a(b)(c).d as i: pass
+with (*a, b) as c: pass
+with {**a} as b, {*a} as c, [*a] as d: pass
+with (lambda: 0) as a, (lambda x: x)(1) as b: pass
+with 'a' 'b' as c, f'{x}' 'y' as d: pass
+def with_yield():
+    with (yield) as a, (yield b) as c: pass
+    with (yield from a) as b: pass
+async def with_await():
+    with await a as b, await c: pass
+    async with await a as b, (await c) as d: pass
